@@ -1,7 +1,7 @@
 \* exhaustive (thorough): every mesh pair over H = 6, every profile, map back with and without two solver states
 CONSTANTS H = 6  SrcPts = {1, 2, 3, 4, 5}  DstPts = {1, 2, 3, 4, 5}  Profiles = {1, 2, 3, 4, 11, 12, 13, 14, 15, 16}  FuelChoices = {3}  SolveProfiles = {2, 3}
-          Jitters = {"none"}  Ops = {"MakeUniform", "Solve", "MapBack"}  SnapFlags = {}
-          SnapProfiles = {}  MaxLevel = 5
+          Jitters = {"none"}  Ops = {"MakeUniform", "Solve", "MapBack", "Move"}  SnapFlags = {}
+          SnapProfiles = {}  MoveProfiles = {2}  Geoms = {"cold"}  MaxLevel = 5
 INIT Init
 NEXT Next
 CONSTRAINT Bound
